@@ -8,7 +8,7 @@ def cases(tier, seed):
     cs = []
     structs = [([3], [1, 1], [1, 1]), ([2, 3], [1, 2, 1], [1, 2, 1]), ([2, 2], [1, 1, 1], [1, 3, 1]), ([2, 2, 2], [1, 2, 2, 1], [1, 1, 2, 1])]
     if th:
-        structs += [([3, 3], [1, 3, 1], [1, 2, 1]), ([2, 3, 2], [1, 2, 1, 1], [1, 2, 2, 1]), ([2, 2, 2, 2], [1, 2, 2, 2, 1], [1, 1, 1, 1, 1])]
+        structs += [([3, 3], [1, 3, 1], [1, 2, 1]), ([2, 3, 2], [1, 2, 1, 1], [1, 2, 2, 1])]
     for N, RA, Rb in structs:
         d = len(N)
         for prec in (None, 'c', 'r'):
@@ -31,7 +31,7 @@ def cases(tier, seed):
 
 def opts(tier):
     return {'logic': 'QF_LIA', 'qtimeout_ms': 10000, 'final_timeout_ms': 30000, 'max_paths': 8000 if tier == 'quick' else 40000,
-            'case_timeout_s': 300 if tier == 'quick' else 1800, 'scalar_mode': 'Z',
+            'case_timeout_s': 300 if tier == 'quick' else 1200, 'scalar_mode': 'Z',
             'setup': {'factor_mode': 'havoc', 'fresh': 'havoc', 'select_mode': 'ite'}}
 
 
